@@ -49,6 +49,17 @@ def blStep (ws : List String) : String :=
     match parseOpKind k, a.toNat?, h.toNat?, ms.mapM parseMsg with
     | some k, some a, some h, some ms => showOutcome (outcome { kind := k, address := a, handle := h } ms)
     | _, _, _, _ => "bad-op"
+  | "ble.notify" :: a :: h :: es =>
+    -- events: d:<addr>:<handle>:<data> | rm
+    let parse (w : String) : Option NEv := match w.splitOn ":" with
+      | ["d", x, y, z] => match x.toNat?, y.toNat?, z.toNat? with
+        | some x, some y, some z => some (.data ⟨x, y, z⟩)
+        | _, _, _ => none
+      | ["rm"] => some .remove
+      | _ => none
+    match a.toNat?, h.toNat?, es.mapM parse with
+    | some a, some h, some es => " ".intercalate ((notifyRun a h true es).map toString)
+    | _, _, _ => "bad-op"
   | "ble.connect" :: a :: es =>
     match a.toNat?, es.mapM parseCEv with
     | some a, some es => " ".intercalate ((cRun { address := a } es).log.map showAct)
